@@ -235,7 +235,8 @@ def _epoch_stages(M):
                 q = M.res(n.func)
                 if q in ('numpy.hstack', 'numpy.concatenate'):
                     stages.setdefault('merge', (i, st, n))
-                if q == 'numpy.unique' and n.args:
+                if q in ('numpy.unique', 'builtins.set', 'builtins.frozenset', 'pandas.unique',
+                         'numpy.union1d') and n.args:
                     # de-duplication counts only when it is applied to the merged list,
                     # not to each stream inside the comprehension
                     inner = {id(x) for c_ in ast.walk(st)
@@ -384,6 +385,67 @@ def sched_epochs(ctx, which=(FB, FF)):
             ctx.ob('SCHED-EPOCHS', u[0] < s[0] or u[1] is s[1] and False, None,
                    'de-duplication precedes the sentinel', f=f, node=u[1], key='order-unique',
                    why='np.unique is applied after the sentinel')
+        # every definition of the epoch list re-arranges, de-duplicates or filters time stamps -
+        # none computes new ones: an epoch that is not (bit for bit) an element of a stream's
+        # index is looked up in that index and not found, so the sample is skipped in silence
+        # (hand-made probe, sixth session: np.unique(np.round(T, 3)))
+        VALUE_KEEPING = ('numpy.hstack', 'numpy.concatenate', 'numpy.unique', 'numpy.sort',
+                         'numpy.asarray', 'numpy.array', 'numpy.append', 'numpy.r_',
+                         'numpy.empty', 'numpy.zeros', 'numpy.ravel', 'numpy.atleast_1d',
+                         'numpy.union1d', 'numpy.fromiter', 'builtins.sorted', 'builtins.list',
+                         'builtins.set', 'builtins.tuple', 'builtins.len', 'builtins.float')
+        for st_ in M.T_assigns:
+            bad_ = None
+            val = st_.value if isinstance(st_, (ast.Assign, ast.AugAssign)) else None
+            if val is None:
+                continue
+            masks = set()
+            for n_ in ast.walk(val):
+                if isinstance(n_, ast.Subscript):
+                    for y in ast.walk(n_.slice):
+                        masks.add(id(y))
+            for n_ in ast.walk(val):
+                if id(n_) in masks:
+                    continue            # a selection mask compares values, it does not make any
+                if isinstance(n_, ast.Call):
+                    q_ = M.res(n_.func)
+                    if q_ is None and isinstance(n_.func, ast.Attribute) and \
+                            n_.func.attr in ('copy', 'tolist', 'to_numpy', 'unique', 'sort_values',
+                                             'append', 'union', 'ravel', 'flatten'):
+                        continue
+                    if q_ not in VALUE_KEEPING:
+                        bad_ = n_
+                        break
+                elif isinstance(n_, ast.BinOp) and not isinstance(n_.op, (ast.BitAnd, ast.BitOr)) \
+                        and not (isinstance(n_.op, ast.Add) and
+                                 (isinstance(n_.left, (ast.List, ast.Tuple)) or
+                                  isinstance(n_.right, (ast.List, ast.Tuple, ast.ListComp)))):
+                    bad_ = n_
+                    break
+            if bad_ is not None and isinstance(bad_, ast.Call) and M.res(bad_.func) is None and \
+                    not isinstance(bad_.func, ast.Attribute):
+                ctx.need(False, '%s: call `%s` in the definition of the epoch list not resolved'
+                         % (f.name, norm_text(bad_)[:50]))
+            if isinstance(bad_, ast.BinOp):
+                ctx.need(False, '%s: arithmetic `%s` in the definition of the epoch list is not '
+                         'decided' % (f.name, norm_text(bad_)[:50]))
+            known_changer = bad_ is not None and (
+                (M.res(bad_.func) or '').split('.')[-1] in (
+                    'round', 'around', 'rint', 'floor', 'ceil', 'trunc', 'fix', 'clip', 'add',
+                    'subtract', 'multiply', 'divide', 'mod', 'float32', 'float16', 'int64', 'int32',
+                    'cumsum', 'diff', 'linspace', 'arange', 'interp', 'mean', 'median')
+                or (isinstance(bad_.func, ast.Attribute) and bad_.func.attr in (
+                    'round', 'astype', 'clip')))
+            if bad_ is not None and not known_changer:
+                ctx.need(False, '%s: `%s` in the definition of the epoch list is not known to keep '
+                         'the time stamps as they are' % (f.name, norm_text(bad_)[:50]))
+            ctx.ob('SCHED-EPOCHS', bad_ is None, None, 'epoch list holds time stamps of the '
+                   'streams unchanged (`%s`)' % norm_text(st_)[:50], f=f, node=st_,
+                   key='stamps-' + norm_text(st_)[:40],
+                   why='`%s` computes new time values for the epoch list: an epoch that is not '
+                       'exactly an element of a measurement index is not found in it, the sample '
+                       'is skipped without notice (and innovations would carry a time no sample '
+                       'has)' % norm_text(bad_)[:60] if bad_ is not None else '')
         # nothing writes T inside the loop
         wr = M.writes(T)
         ctx.ob('SCHED-EPOCHS', not wr, None, 'epoch list is not modified inside the loop', f=f,
